@@ -351,7 +351,7 @@ def run_harness_vectors(cfg, vecfile, tag):
 def find_vector(vecfile, vid):
     with open(vecfile) as f:
         for line in f:
-            if ('"id":"%s"' % vid) in line:
+            if ('"id":"%s"' % vid) in line or ('"id": "%s"' % vid) in line:
                 return json.loads(line)
     return None
 
